@@ -252,6 +252,20 @@ chk("C17", "model_checking",
     "DESIGN.md section 4, C17")
 
 
+chk("C19", "model_checking",
+    "spec/PcapFile.tla is a cursor / delivered state machine whose calls have outcome sets (ReadNext: the next record, "
+    "then null or - only if damaged - an error object; ReadAll(n): the next min(n, remaining) records, never losing "
+    "records already read); TLC model-checks PrefixInOrder, ExactlyOnce and NothingLost under all interleavings of up "
+    "to 6 calls for files of 0-4 records, damaged or not. Conformance: random pcap files (0-50 records, sizes around "
+    "0/1/the 8192-byte BufReader boundary/65535, both magics, small / huge snaplen) cut at random (thorough: every) "
+    "byte offsets or corrupted (caplen above snaplen, bad magic, short header, trailing garbage), read by random "
+    "interleavings of pcap_read_next / pcap_read_all(f[, n]); every returned packet is written with pcap_write and "
+    "read back. spec/PcapFileTrace.tla parses the file bytes itself and validates every call against the outcome sets.",
+    "Big-endian captures count as bad magic (the property names the two little-endian magics).",
+    "TLA+ state machine model-checked by TLC; recorded call histories of the real interpreter trace-validated by TLC",
+    "DESIGN.md section 4, C19")
+
+
 def main():
     props = [json.loads(l)["id"] for l in open(os.path.join(VERIF, "properties.jsonl"))]
     na = [{"property_id": p, "reason": NOT_APPLICABLE.get(p, "check not built yet in this round (planned, see DESIGN.md section 8)")}
